@@ -131,6 +131,47 @@ class Reach:
         self.live: Dict[int, VSet] = {}
         self.fn_live: Dict[int, VSet] = {}
         self.module_after = self._stmts(mod.tree.body, module_live if module_live is not None else ver.all)
+        self._refine_new_helpers()
+
+    def _refine_new_helpers(self) -> None:
+        """a helper that the reference tree does not have, and that is only ever called directly inside this module, is
+        reachable exactly under the interpreters under which one of its call sites is (the version test stayed in the caller)"""
+        try:
+            from .normalize import load_inventory
+            ref = set(load_inventory().get(self.mod.name, []))
+        except Exception:
+            return
+        if not ref:
+            return
+        for _round in range(2):
+            for q, fn in self.mod.defs.items():
+                if q in ref or not isinstance(fn, (ast.FunctionDef, ast.AsyncFunctionDef)) or "#" in q:
+                    continue
+                name = fn.name
+                uses = [n for n in ast.walk(self.mod.tree) if (isinstance(n, ast.Name) and n.id == name and isinstance(n.ctx, ast.Load))
+                        or (isinstance(n, ast.Attribute) and n.attr == name and isinstance(n.ctx, ast.Load))]
+                if not uses:
+                    # every call was inlined by the normaliser: the statements are analysed where they were spliced in
+                    if any(f"inlined new helper {q} " in l or f"inlined new expression helper {q} " in l for l in getattr(self.mod, "norm_log", [])) and fn.name.startswith("_"):
+                        self.fn_live[id(fn)] = frozenset()
+                        self._stmts(fn.body, frozenset())
+                    continue
+                calls = []
+                ok = True
+                for u in uses:
+                    par = self.mod.parent_of(u)
+                    if isinstance(par, ast.Call) and par.func is u and id(par) in self.live:
+                        calls.append(par)
+                    else:
+                        ok = False
+                if not ok or not calls:
+                    continue
+                live: VSet = frozenset()
+                for c in calls:
+                    live = live | self.live[id(c)]
+                if live != self.fn_live.get(id(fn)):
+                    self.fn_live[id(fn)] = live
+                    self._stmts(fn.body, live)
 
     def at(self, node: ast.AST) -> VSet:
         try:
